@@ -288,6 +288,11 @@ impl Scenario for C04Handles {
                 }
             }
         }
+        if v.is_none() && simr.panics.is_empty() && simr.end == dsim::End::StepBudget {
+            // every handle operation is lock-free: a retry is caused by another thread's success, of
+            // which a plan holds at most a few dozen; a whole plan takes a few hundred steps
+            v = violation("operation-never-returns", format!("after {} scheduling steps the plan's operations had not all returned ({} of {} completed): some handle operation spins without making progress", simr.steps, h.len(), plan.threads.iter().map(|t| t.len()).sum::<usize>()));
+        }
         rep.observations = format!("{:?} finals={:?}", h, f);
         rep.history_hash = crate::util::hash_str(&rep.observations);
         rep.count("ops", h.len() as u64);
